@@ -17,11 +17,18 @@
 package main
 
 import (
+	"bufio"
 	"encoding/binary"
+	"encoding/json"
 	"errors"
+	"flag"
 	"fmt"
 	"net"
 	"net/netip"
+	"os"
+	"os/exec"
+	"path/filepath"
+	"sort"
 	"sync"
 	"sync/atomic"
 	"time"
@@ -29,6 +36,7 @@ import (
 	"github.com/gopacket/gopacket"
 
 	"github.com/scionproto/scion/pkg/addr"
+	"github.com/scionproto/scion/pkg/log"
 	"github.com/scionproto/scion/pkg/scrypto"
 	"github.com/scionproto/scion/pkg/slayers"
 	"github.com/scionproto/scion/pkg/slayers/path"
@@ -122,6 +130,8 @@ func (o *observer) ev(kind string, c, b int) {
 			why = fmt.Sprintf("sender %d returns buffer %d which it does not hold", c, b)
 		}
 		o.st[b] = holder{kind: 'f'}
+	case "release":
+		o.st[b] = holder{kind: 'f'}
 	}
 	tag := kind
 	if why != "" {
@@ -164,6 +174,7 @@ type sconn struct {
 	wpols   []wpol
 	remote  *net.UDPAddr
 	nWrites atomic.Int64
+	dead    bool // set under o.mu by Close: no further observations on this connection
 }
 
 func (c *sconn) ReadBatch(msgs conn.Messages) (int, error) {
@@ -174,6 +185,10 @@ func (c *sconn) ReadBatch(msgs conn.Messages) (int, error) {
 	}
 	o := c.o
 	o.mu.Lock()
+	if c.dead {
+		o.mu.Unlock()
+		return 0, errors.New("closed")
+	}
 	ids := make([]int, len(msgs))
 	for i := range msgs {
 		ids[i] = o.id(msgs[i].Buffers[0])
@@ -211,6 +226,10 @@ func (c *sconn) ReadBatch(msgs conn.Messages) (int, error) {
 			msgs[i].Addr = c.remote
 		}
 		o.mu.Lock()
+		if c.dead {
+			o.mu.Unlock()
+			return 0, errors.New("closed")
+		}
 		for i := 0; i < k; i++ {
 			o.ev("fill", c.idx, ids[i])
 		}
@@ -237,6 +256,10 @@ func (c *sconn) WriteBatch(msgs conn.Messages, flags int) (int, error) {
 	}
 	c.wmu.Unlock()
 	o.mu.Lock()
+	if c.dead {
+		o.mu.Unlock()
+		return -1, errors.New("closed")
+	}
 	ids := make([]int, len(msgs))
 	for i := range msgs {
 		ids[i] = o.id(msgs[i].Buffers[0])
@@ -257,6 +280,10 @@ func (c *sconn) WriteBatch(msgs conn.Messages, flags int) (int, error) {
 		written, err = -1, errors.New("scripted write error")
 	}
 	o.mu.Lock()
+	if c.dead {
+		o.mu.Unlock()
+		return -1, errors.New("closed")
+	}
 	w := max(written, 0)
 	if len(msgs) >= 2 {
 		o.counts["write/batch>=2"]++
@@ -310,8 +337,26 @@ func (c *sconn) checkWritten(b []byte) {
 	}
 }
 
+// Close: from here on the receiver returns what it has registered and the sender stops; the
+// buffers this connection holds are released in the observer's book-keeping.
 func (c *sconn) Close() error {
-	c.once.Do(func() { close(c.closed) })
+	c.once.Do(func() {
+		o := c.o
+		o.mu.Lock()
+		c.dead = true
+		var bs []int
+		for b, h := range o.st {
+			if (h.kind == 'r' || h.kind == 't') && h.c == c.idx {
+				bs = append(bs, b)
+			}
+		}
+		sort.Ints(bs)
+		for _, b := range bs {
+			o.ev("release", c.idx, b)
+		}
+		o.mu.Unlock()
+		close(c.closed)
+	})
 	return nil
 }
 
@@ -609,8 +654,10 @@ func runScenario(e *vlib.Env, idx int, r *vlib.Rand) bool {
 		fail(key, what)
 	}
 	nv := len(e.Violations)
-	confirm(false)
-	o.counts["audit"]++
+	if !*stressShutdown {
+		confirm(false)
+		o.counts["audit"]++
+	}
 	// shutdown (with a watchdog: receivers starved of buffers never see the stop)
 	sd := make(chan struct{})
 	go func() { dp.Shutdown(); close(sd) }()
@@ -632,7 +679,7 @@ func runScenario(e *vlib.Env, idx int, r *vlib.Rand) bool {
 		if len(e.Violations) == nv {
 			fail("pipeline-wedged", fmt.Sprintf("Shutdown does not return after 90 s: a stage is blocked (pool holds %d of %d buffers)", len(dp.PoolAudit()), poolSize))
 		}
-	} else if !bfdOn {
+	} else if !bfdOn && !*stressShutdown {
 		confirm(true)
 	} else if k, w := audit(true); k == "double-put" {
 		fail(k, w)
@@ -648,8 +695,34 @@ func runScenario(e *vlib.Env, idx int, r *vlib.Rand) bool {
 		e.Branches[k] += v
 	}
 	o.mu.Unlock()
-	e.Case(fmt.Sprint("scenario ", idx, cfg.NumProcessors, cfg.NumSlowPathProcessors, cfg.BatchSize, bfdOn, rounds, nInj), "scenario", false)
+	_, _ = rounds, nInj
 	return !wedged && len(e.Violations) == nv
+}
+
+// The pipeline goroutines run under `defer log.HandlePanic()`, which ends the process with exit
+// code 255 on a panic. The scenarios therefore run in child processes (this binary re-executed
+// with -child-from/-child-to); the parent merges their line files and statistics and turns a
+// dead child into a violation naming the scenario that was running.
+var (
+	childFrom = flag.Int("child-from", -1, "internal: first scenario of a child run")
+	childTo   = flag.Int("child-to", -1, "internal: end of the scenario range of a child run")
+	// manual experiment only (not used by ./check): shut down while traffic is still flowing
+	stressShutdown = flag.Bool("stress-shutdown", false, "experiment: Shutdown without waiting for quiescence")
+)
+
+func readLines(p string) []string {
+	f, err := os.Open(p)
+	if err != nil {
+		return nil
+	}
+	defer f.Close()
+	var out []string
+	sc := bufio.NewScanner(f)
+	sc.Buffer(make([]byte, 1<<20), 1<<24)
+	for sc.Scan() {
+		out = append(out, sc.Text())
+	}
+	return out
 }
 
 func main() {
@@ -658,13 +731,85 @@ func main() {
 		"BFD on or off) on scripted sockets; 30-250 read batches per scenario mixing valid transit packets, bad-MAC packets (SCMP via slow path), " +
 		"garbage, short packets, read errors; write side: full, partial, zero, failed and slow writes; then quiescence audit and Shutdown; " +
 		"non-trivial = an ownership observation at a socket; distinct by op line and by scenario"
-	n := e.N(40, 600)
-	ran := 0
-	for i := 0; i < n; i++ {
-		ran++
-		if !runScenario(e, i, vlib.CaseRand(e.Seed, i)) {
-			break
+	if *childFrom >= 0 {
+		// make a panic caught by log.HandlePanic visible on stderr before the process exits
+		_ = log.Setup(log.Config{Console: log.ConsoleConfig{Level: "error"}})
+		ran := 0
+		for i := *childFrom; i < *childTo; i++ {
+			cur, _ := json.Marshal(map[string]any{"scenario": i, "seed": e.Seed})
+			_ = os.WriteFile(filepath.Join(e.Out, "current.json"), cur, 0o644)
+			ran++
+			if !runScenario(e, i, vlib.CaseRand(e.Seed, i)) {
+				break
+			}
 		}
+		e.Extra["scenarios"] = ran
+		e.Finish()
+		return
+	}
+	n := e.N(32, 600)
+	self, err := os.Executable()
+	if err != nil {
+		panic(err)
+	}
+	const chunk = 10
+	ran, dead := 0, false
+	for from := 0; from < n && !dead; from += chunk {
+		to := min(from+chunk, n)
+		sub := filepath.Join(e.Out, fmt.Sprintf("child-%d", from))
+		cmd := exec.Command(self, "-prop", e.Prop, "-tier", e.Tier, "-seed", fmt.Sprint(e.Seed), "-out", sub,
+			"-child-from", fmt.Sprint(from), "-child-to", fmt.Sprint(to))
+		out, cerr := cmd.CombinedOutput()
+		ops, impl, tags := readLines(filepath.Join(sub, "ops.txt")), readLines(filepath.Join(sub, "impl.txt")), readLines(filepath.Join(sub, "tags.txt"))
+		var st struct {
+			Violations []vlib.Violation `json:"violations"`
+			Branches   map[string]int   `json:"branches"`
+			Extra      map[string]any   `json:"extra"`
+		}
+		okStats := false
+		if b, rerr := os.ReadFile(filepath.Join(sub, "stats.json")); rerr == nil && json.Unmarshal(b, &st) == nil {
+			okStats = true
+		}
+		if ee, ok := cerr.(*exec.ExitError); cerr != nil && (!ok || ee.ExitCode() != 255) {
+			fmt.Fprintf(os.Stderr, "child failed (not a pipeline panic): %v\n%s\n", cerr, out)
+			os.Exit(3)
+		}
+		if cerr != nil || !okStats {
+			dead = true
+			var cur map[string]any
+			if b, rerr := os.ReadFile(filepath.Join(sub, "current.json")); rerr == nil {
+				_ = json.Unmarshal(b, &cur)
+			}
+			tail := string(out)
+			if len(tail) > 1500 {
+				tail = tail[len(tail)-1500:]
+			}
+			e.Violate("C14/pipeline-crashed", fmt.Sprintf("the process running the pipeline died (%v): a pipeline goroutine panicked (log.HandlePanic exits with 255)", cerr),
+				map[string]any{"case": cur, "how": "re-run the engine with -child-from <scenario> -child-to <scenario+1>", "output_tail": tail})
+			continue
+		}
+		if len(ops) == len(impl) && len(ops) == len(tags) {
+			for k := range ops {
+				e.Op(ops[k], impl[k], tags[k])
+			}
+		}
+		for _, v := range st.Violations {
+			e.Violate(v.Key, v.What, v.Replay)
+			dead = true
+		}
+		for k, v := range st.Branches {
+			if k != "scenario" {
+				e.Branches[k] += v
+			}
+		}
+		done := to - from
+		if f, ok := st.Extra["scenarios"].(float64); ok {
+			done = int(f)
+		}
+		for k := 0; k < done; k++ {
+			e.Case(fmt.Sprint("scenario ", e.Seed, from+k), "scenario", false)
+		}
+		ran += done
 	}
 	e.Extra["scenarios"] = ran
 	e.Finish()
